@@ -666,6 +666,9 @@ def robustness_scenarios(seed, count):
         # the property excludes exponents of more than 4 digits (performance only): cut longer digit runs after e/E
         import re as _re
         data = _re.sub(rb"([eE][+-]?[0-9]{4})[0-9]+", rb"\1", data)
+        # the scanner accumulates digit by digit (quadratic): a 140 000-digit literal takes minutes - a resource question like the
+        # exponents, not a hang; digit runs are cut at 3000 digits
+        data = _re.sub(rb"([0-9]{3000})[0-9]+", rb"\1", data)
         ext = {"LP": ".lp", "MPS": ".mps", "BAS": ".bas"}[kind]
         z = r.random()
         if z < .12 and kind != "BAS":
